@@ -32,7 +32,9 @@ RULE = (
     "client-calls: 1-4 consecutive calls (6 operations) of one real MCPClient over a fake Transport with a reactive scripted peer "
     "(initialize answered ok / twice / late duplicate / error / -32602 version text / unsupported version / invalid shape / never; "
     "answers, duplicates, errors, silence; strays bearing the initialize id, the previous call's id, other ids) vs ClientApi.clientSeq "
-    "on the recorded connection stream (start ticks, requests written and when, outcome, payload marker, end tick)"
+    "on the recorded connection stream (start ticks, requests written and when, outcome, payload marker, end tick); "
+    "connection: 2-5 consecutive send_message calls with caller ids (reused, int/str twins) on one stream pair scripted in absolute, tie-free "
+    "time (late answers, duplicates, strays left for the next request) vs ClientApi.connSeq"
 )
 TRUSTED = ["anyio memory streams / cancel scopes / asyncio scheduling (sampled under the virtual-time loop)"]
 ASSUMPTIONS = [
@@ -512,5 +514,108 @@ class ClientCalls(Suite):
             yield dict(case, debug=False)
 
 
+class Connection(Suite):
+    """2-5 consecutive `send_message` calls with caller-supplied ids (reused, int / str twins) on ONE
+    connection whose read stream is scripted in absolute time: late answers to requests that gave up,
+    duplicates and strays stay in the stream for the next request.  Ticks are tie-free by
+    construction (distinct residues modulo 16; deadlines, gaps and poll periods are multiples of 16)."""
+    name = "connection"
+    parallel = True
+
+    def cases(self, ctx, budget):
+        rng = ctx.sub_rng("c01-connection", budget)
+        pool = [{"s": "a"}, {"s": "7"}, {"i": 7}, {"s": "b"}, {"i": 1}]
+        out = []
+        for _ in range(2500 if budget == "quick" else 80000):
+            n = rng.choice([2, 2, 3, 4, 5])
+            ids = [rng.choice(pool[:3] if rng.random() < 0.6 else pool) for _ in range(n)]
+            reqs = [{"id": i, "D": rng.choice([512, 1024, 1536]), "gap": rng.choice([0, 0, 16, 1600])} for i in ids]
+            horizon = sum(r["D"] + r["gap"] for r in reqs)
+            ne = rng.randint(0, 15)
+            residues = rng.sample(range(1, 16), ne)
+            stream = []
+            for k, res in enumerate(residues):
+                a = 16 * rng.randint(0, max(1, horizon // 16)) + res
+                kind = rng.choice(["resp", "resp", "resp", "err", "req", "notif", "other"])
+                idv = rng.choice(ids) if rng.random() < 0.8 else rng.choice(pool)
+                if kind == "resp":
+                    ev = {"k": "resp", "id": idv, "p": {"marker": len(out) * 100 + k}}
+                elif kind == "err":
+                    ev = {"k": "err", "id": idv, "code": rng.choice([-32601, -32603, 5]), "msg": f"e{k}"}
+                elif kind == "req":
+                    ev = {"k": "req", "id": idv, "method": "sampling/createMessage"}
+                elif kind == "notif":
+                    ev = {"k": "notif", "method": "notifications/message", "params": {"k": k}}
+                else:
+                    ev = {"k": "resp", "id": {"s": "nobody"}, "p": {"marker": len(out) * 100 + k}}
+                stream.append([a, ev])
+            stream.sort(key=lambda x: x[0])
+            out.append({"tie": rng.choice(["events", "timers", "io"]), "reqs": reqs, "stream": stream, "debug": rng.random() < 0.2})
+        return out
+
+    def impl_batch(self, cases):
+        return [C.run_conn(c) for c in cases]
+
+    def model_line(self, case, o=None):
+        if o is None or o.get("harness_errors"):
+            return None
+        return C.conn_model_line(case)
+
+    def model_obs(self, out, case):
+        return out
+
+    def compare(self, case, o, m):
+        from ..core import canon
+        if len(m) != len(o["reqs"]):
+            return "differs"
+        def proj(x):
+            e = {"start": x["start"], "outcome": x["outcome"], "t": x["t"]}
+            if x["outcome"] == "returned":
+                e["p"] = x.get("p")
+            if x["outcome"] == "raised":
+                e["code"], e["retryable"] = x["code"], x["retryable"]
+            return e
+        return None if canon([proj(x) for x in o["reqs"]]) == canon([proj(x) for x in m]) else "differs"
+
+    def kind(self, case, o):
+        return "connection/" + "+".join(x["outcome"] for x in o["reqs"])
+
+    def nontrivial(self, case, o):
+        return len(case["stream"]) > 0
+
+    def oracle(self, case, o):
+        if o.get("harness_errors"):
+            return None
+        seen = []
+        for i, (r, x) in enumerate(zip(case["reqs"], o["reqs"])):
+            rid = H._idval(r["id"], {})
+            reqs = [w for w in x["writes"] if isinstance(w, dict) and "id" in w and w.get("method")]
+            if len(reqs) != 1 or reqs[0]["id"] != rid or type(reqs[0]["id"]) is not type(rid):
+                return ("connection/request-count", f"request {i} (id {rid!r}) wrote {[(w.get('id'), w.get('method')) for w in reqs]}", {"requests": 1})
+            if x["outcome"] == "hung":
+                return ("connection/never-completes", f"request {i} (id {rid!r}) still running after its timeout {r['D']}", {"outcome": "timeout"})
+            if x["outcome"] == "exception":
+                return ("connection/unexpected-exception", f"request {i}: {x.get('exc')}: {x.get('text')}", None)
+            if x["t"] > r["D"]:
+                return ("connection/deadline-exceeded", f"request {i} took {x['t']} ticks, timeout {r['D']}", {"max": r["D"]})
+            if x["outcome"] == "returned":
+                src = [ev for _, ev in case["stream"] if ev["k"] == "resp" and ev["p"] == x.get("p")]
+                if not src or H._idval(src[0]["id"], {}) != rid or type(H._idval(src[0]["id"], {})) is not type(rid):
+                    return ("connection/returned-foreign", f"request {i} (id {rid!r}) returned {x.get('p')!r}, which no response bearing its id carries", {"outcome": "not this payload"})
+                if x.get("p") in seen:
+                    return ("connection/response-delivered-twice", f"request {i} (id {rid!r}) was handed {x.get('p')!r}, already handed to an earlier request", None)
+                seen.append(x.get("p"))
+        return None
+
+    def shrink_candidates(self, case):
+        if len(case["reqs"]) > 1:
+            for i in range(len(case["reqs"])):
+                yield dict(case, reqs=case["reqs"][:i] + case["reqs"][i + 1:])
+        for j in range(len(case["stream"])):
+            yield dict(case, stream=case["stream"][:j] + case["stream"][j + 1:])
+        if case.get("debug"):
+            yield dict(case, debug=False)
+
+
 def suites():
-    return [Histories(), Siblings(), ClientCalls()]
+    return [Histories(), Siblings(), ClientCalls(), Connection()]
